@@ -6,6 +6,15 @@ import os
 VERIF = os.path.dirname(os.path.dirname(os.path.abspath(__file__)))
 
 CHECKS = {
+    "C09": {
+        "text": "Every ordered group of 1-2 (thorough 3) members from a 12-member alphabet (variables, tracking dicts, stacks, printers to default and "
+        "named streams, fail, stop, errors under collect, unmatched-mode keep, return-mode no-matches, with/without ids) x 7 (10) files with "
+        "quotes, delimiters, embedded newlines, non-ASCII, blank records and the empty file x all six run methods, each on a fresh instance; "
+        "the archive tree is compared file by file with models/refarchive.py computed from the in-memory results.",
+        "design": "3 / C09",
+        "note": "trusted: models/refarchive.py; collected lines taken from a standalone run of the member; timestamps/uuids not compared",
+        "technique": "bounded exhaustive enumeration of groups x files x run methods on the real archive writer against a reference archive model",
+    },
     "C10": {
         "text": "Explicit-state breadth-first search over run histories: {2 groups} x {new instance, reused instance} x {run method} x {same second, "
         "next instant, skip} over a ladder of virtual instants crossing 12:59:59->13:00:00 and midnight; depth 3 (thorough 4, plus all six "
